@@ -11,9 +11,10 @@ EXPLANATION = ("Real ribana.trace_chains / get_nn_dist / add_chain_suffix / add_
                "order numbers 1..k per chain, link distances inside (min,max] and equal to the recorded value, no chain across tomograms.")
 ASSUMPTIONS = ["N = 2 (complete) and N = 3 (path budget; quick) / complete (thorough) particles in tomogram 1 on a symbolic line, plus one concrete pair in tomogram 2",
                "coordinates in [-50,50], max_distance in (0,40], min_distance in [0,10]; no exit site coinciding with another particle's entry site (degenerate zero-length contact excluded); equal-length links and links of length exactly min/max are INCLUDED"]
-OUTSIDE = ["N > 4 particles per tomogram (the merge / prefix / tail-cut branches multiply paths); branch coverage reached is reported in the evidence", "3-D arrangements in the quick tier", "float rounding (A0)"]
+OUTSIDE = ["N > 4 particles per tomogram (the merge / prefix / tail-cut branches multiply paths); the lines of trace_chains / add_chain_suffix / add_chain_prefix that no symbolic path reached are listed in the evidence (coverage.line_coverage_of_entered_functions)", "3-D arrangements in the quick tier", "float rounding (A0)"]
 BOUNDS = {"quick": {"N": "2 complete, 3 under a path budget"}, "thorough": {"N": "3 complete, 4 on a line under a budget"}}
 EXPECTED_EXCEPTIONS = ()
+FOCUS = ["ribana:trace_chains", "ribana:add_chain_suffix", "ribana:add_chain_prefix", "ribana:get_nn_dist"]
 OPTS = {"qtimeout": 10.0, "max_paths": 500, "budget_s": 170}
 
 
@@ -140,11 +141,79 @@ def h_family(env, fam=0, n=5, sym=(0,), min_zero=True):
             env.check(tag + "_distance_recorded", env.and_(env.eq(a["geom4"] * a["geom4"], dd), env.ge(a["geom4"], 0.0)))
 
 
+def _check_partition(env, df, ent, ext, dmax, dmin, n, d1):
+    ids = sorted(float(v) for v in df["subtomo_id"])
+    env.check("every_particle_exactly_once", env.true() if ids == [float(i + 1) for i in range(n)] else _false(env))
+    rows = [row(df, j) for j in range(df.shape[0])]
+    chains = {}
+    for r in rows:
+        chains.setdefault(float(r["object_id"]), []).append(r)
+    for o, mem in chains.items():
+        orders = sorted(float(m["geom2"]) for m in mem)
+        env.check("chain_o%d_orders_1_to_k" % o, env.true() if orders == [float(k + 1) for k in range(len(mem))] else _false(env))
+        mem = sorted(mem, key=lambda m: float(m["geom2"]))
+        for a, b in zip(mem[:-1], mem[1:]):
+            ia, ib = int(float(a["subtomo_id"])) - 1, int(float(b["subtomo_id"])) - 1
+            dd = d1(ia, ib) * d1(ia, ib)
+            tag = "link_%d_to_%d" % (ia + 1, ib + 1)
+            env.check(tag + "_within_max", env.le(dd, dmax * dmax))
+            env.check(tag + "_beyond_min", env.gt(dd, dmin * dmin))
+            env.check(tag + "_distance_recorded", env.and_(env.eq(a["geom4"] * a["geom4"], dd), env.ge(a["geom4"], 0.0)))
+    env.note("chains", sorted((k, [int(float(m["subtomo_id"])) for m in sorted(v, key=lambda m: float(m["geom2"]))]) for k, v in chains.items()))
+
+
+def h_scenario(env, kind="head_cut_then_append", order=(0, 1, 2, 3)):
+    """Arrangement skeletons that steer the tracer into the deep branches of add_chain_suffix / add_chain_prefix (a head
+    or tail is cut off an existing chain and the pieces are re-attached), which need a specific multi-step history with
+    four particles.  Only the ORDER of the gap lengths is assumed; base position, gaps, particle length and the
+    distance limit are solver reals, so each skeleton covers a continuum of arrangements.  The obligations are the
+    generic ones (valid partition whatever branch is taken).  `order` = the row order of the four particles in the list."""
+    rb = env.module("ribana")
+    cm = env.module("cryomotl")
+    base = env.real("base", -20, 20)
+    la = env.real("len_a", 0.25, 3)
+    g1, g2, g3 = env.real("g1", 0.05, 8), env.real("g2", 0.05, 8), env.real("g3", 0.05, 8)
+    dmax = env.real("dmax", 0.5, 8)
+    if kind == "head_cut_then_append":
+        # a -> b is traced (gap g1) although d is also in reach (g3 > g1); c ends closer in front of b (g2 < g1): c is put
+        # before b and a is cut off; d (in reach of a's exit) is then appended after the cut-off head
+        env.assume(env.and_(env.lt(g2, g1), env.lt(g1, g3), env.le(g3, dmax)))
+        xa = base + la
+        P = [(base, xa), (xa + g1, xa + g1 + 27.0), (base + 60.0, xa + g1 - g2), (xa - g3, xa - g3 - 40.0)]
+    elif kind == "prefix_kept":
+        # as above, but the late particle c ends FARTHER from b than a does (g2 > g1): the original link must be kept
+        # (d is out of reach of everything here; a's own entry must be farther from c's exit than b's entry: la + g1 > 2 g2)
+        env.assume(env.and_(env.lt(g1, g2), env.le(g2, dmax), env.gt(la + g1, 2 * g2)))
+        xa = base + la
+        P = [(base, xa), (xa + g1, xa + g1 + 27.0), (base + 60.0, xa + g1 - g2), (base - 50.0 - g3, base - 90.0)]
+    else:
+        # two candidates behind one exit and two exits in front of one entry, all gaps within reach: both-sided attachment
+        env.assume(env.and_(env.le(g1, dmax), env.le(g2, dmax), env.le(g3, dmax)))
+        xa = base + la
+        P = [(base, xa), (xa + g1, xa + g1 + la), (xa + g1 + la + g2, xa + g1 + la + g2 + 30.0), (base - g3 - 30.0, base - g3)]
+    P = [P[i] for i in order]
+    n = len(P)
+    ent = [{"tomo_id": 1.0, "subtomo_id": float(i + 1), "x": P[i][0], "y": 0.0, "z": 0.0} for i in range(n)]
+    ext = [{"tomo_id": 1.0, "subtomo_id": float(i + 1), "x": P[i][1], "y": 0.0, "z": 0.0} for i in range(n)]
+
+    def d1(a, b):
+        return ext[a]["x"] - ent[b]["x"]
+    for a in range(n):
+        for b in range(n):
+            if a != b:
+                env.assume(env.not_(env.eq(d1(a, b), 0.0)))
+    out = rb.trace_chains(mk_motl(env, cm, ent), mk_motl(env, cm, ext), dmax, 0.0)
+    _check_partition(env, out.df, ent, ext, dmax, 0.0, n, d1)
+
+
 def jobs(tier, seed):
     j = [("h_trace", {"n": 2, "min_zero": True}), ("h_trace", {"n": 2, "min_zero": False, "second_tomo": False}), ("h_trace", {"n": 3, "min_zero": True, "second_tomo": False})]
     nf = 6 if tier == "quick" else 60
     fams = [("h_family", {"fam": seed * 1000 + f, "n": 5 if f % 2 == 0 else 4, "sym": [f % 4], "min_zero": f % 3 != 0}) for f in range(nf)]
-    j = j[:2] + fams + j[2:]
+    scen = [("h_scenario", {"kind": "head_cut_then_append"}), ("h_scenario", {"kind": "prefix_kept"}), ("h_scenario", {"kind": "both_sides"})]
+    if tier == "thorough":
+        scen += [("h_scenario", {"kind": k, "order": list(o)}) for k in ("head_cut_then_append", "prefix_kept", "both_sides") for o in itertools.permutations(range(4)) if list(o) != [0, 1, 2, 3] and (k != "both_sides" or o[0] < o[1])]
+    j = j[:2] + scen + fams + j[2:]
     if tier == "thorough":
         j += [("h_trace", {"n": 3, "min_zero": False}), ("h_trace", {"n": 4, "min_zero": True, "second_tomo": False}), ("h_trace", {"n": 2, "min_zero": True, "space": "plane"})]
     return j
